@@ -19,8 +19,15 @@
 -/
 import Proofs.TwoPCCommit
 import Proofs.TwoPCMachines
+import ZodbModel.Generated
 namespace Props.C05
 open ZodbModel ZodbModel.TwoPC Proofs.TwoPC
+
+/-- tie to the constants harness/extract.py translates from /repo's source on every run: the
+    transaction-header and data-header lengths the model's offsets and sizes are built from -/
+theorem tie_header_lengths :
+    (Generated.transHdrLen = none ∨ Generated.transHdrLen = some transHdrLen) ∧
+    (Generated.dataHdrLen = none ∨ Generated.dataHdrLen = some dataHdrLen) := by decide
 
 /-- every state the storage can be in: opened empty with any quota, then any calls whatsoever -/
 def Reachable (s : State) : Prop := ∃ (q : Option Nat) (ops : List Op), s = run { quota := q } ops
@@ -182,6 +189,43 @@ theorem demo_wrong_txn_noop {M : Machine} (d : Demo.State M) (t' : TxnId) (ht : 
     Demo.step d (.finish t') = (d, .errTxn) ∧
     Demo.step d (.abort t') = (d, .ok) :=
   demo_wrong_txn d t' ht
+
+/-! ### the boundary of the property in the code as it is: a failing `tpc_finish` callback
+
+  `tpc_finish(t, f)` calls `f(tid)` before the commit point.  If `f` raises, the transaction has not
+  finished, yet (model following FileStorage.tpc_finish / DemoStorage.tpc_finish line by line) the
+  mandated abort can no longer restore the state.  These are NEGATIVE results with concrete
+  witnesses; both were replayed on the real code (harness failure kind `finishcb`,
+  signatures `C05:finish-callback-failure:…`).  `abort_restores` above is unaffected: its histories
+  are lists of `Op`, and the raising callback is not an `Op`. -/
+
+/-- FileStorage: after `begin; store; vote; tpc_finish(t, raising f)` the storage has forgotten the
+    transaction and freed the lock, `tpc_abort(t)` is ignored, and the voted bytes are still in the
+    file behind `_pos` (and the staging area is not cleared) -/
+theorem finish_callback_failure_leaves_voted_data :
+    ∃ (s : State) (ops : List Op) (t : TxnId), Reachable s ∧ s.closed = false ∧ s.txn = none ∧
+      NoCommit s ops ∧
+      let s₁ := (doFinishCb (run s ops) t).1
+      (doFinishCb (run s ops) t).2.2 = .errCallback ∧
+      s₁.commitLock = none ∧ (step s₁ (.abort t)).1 = s₁ ∧
+      s₁.pos < s₁.fileLen ∧ obs (abortCurrent s₁) ≠ obs s :=
+  ⟨run {} [.begin 1 100 32 0 0 0, .store 1 1 0 10 7, .vote 1, .finish 1],
+   [.begin 2 200 32 0 5 0, .store 2 2 0 30 9, .vote 2], 2,
+   ⟨none, _, rfl⟩, by decide, by decide, by decide, by decide⟩
+
+/-- DemoStorage over MappingStorage: after `tpc_finish(t, raising f)` the demo storage has no
+    transaction but still holds its commit lock, the mandated `tpc_abort(t)` is ignored, and the next
+    `tpc_begin` of any transaction blocks -/
+theorem demo_finish_callback_failure_leaks_lock :
+    ∃ (d : Demo.State mappingMachine) (t : TxnId),
+      d.txn = some t ∧ d.commitLock = some t ∧
+      let d₁ := (Demo.doFinishCb d t (Mapping.doFinishCb d.changes t)).1
+      d₁.txn = none ∧ d₁.commitLock = some t ∧
+      (Demo.step d₁ (.abort t)).2 = .ok ∧ (Demo.step d₁ (.abort t)).1.commitLock = some t ∧
+      (Demo.step (Demo.step d₁ (.abort t)).1 (.begin 3 300 32 0 0 0)).2 = .blocked :=
+  ⟨(mappingMachine |> demoMachine).run
+      ({ changes := ({} : Mapping.State), base := [] } : Demo.State mappingMachine)
+      [.begin 2 200 32 0 0 0, .store 2 1 0 5 5, .vote 2], 2, by decide, by decide, by decide⟩
 
 /-! ### non-vacuity: concrete histories meet the hypotheses and exercise the failure paths -/
 
